@@ -96,7 +96,7 @@ fn probe_for(
             }
         }
         K::Stat(_) => vec![(format!("fn {f}() -> u32 {{ {path}() }}\n"), Sig::U0, tag.to_string(), "call static method")],
-        K::Mod | K::Use => vec![],
+        K::Mod | K::Use | K::ImplUse(_) => vec![],
     }
 }
 
@@ -208,6 +208,13 @@ pub fn probes(st: &State) -> Vec<Probe> {
                         push(&mut out, v, false, &path, Some(*id), None, false);
                     }
                 }
+                // a `use` inside an impl block: the name is usable in the type's scope
+                for (name, (den, use_id)) in &sc.imports {
+                    let path = format!("{tp}.{name}");
+                    let item = if let Den::Item(id) = den { Some(*id) } else { None };
+                    let v = den_probes(st, den, &path, true, &mut n);
+                    push(&mut out, v, false, &path, item, Some(*use_id), false);
+                }
             }
         }
     }
@@ -284,6 +291,69 @@ pub fn probes(st: &State) -> Vec<Probe> {
         let rest = p.src.strip_prefix("fn ").unwrap();
         let end = rest.find('(').unwrap();
         p.src = format!("fn {fname}{}", &rest[end..]);
+    }
+    out
+}
+
+/// After an add that returned Err: the declared path of every item of the
+/// rejected library that the state before that add does not bind. All of
+/// them must be compile errors.
+pub fn rejected_probes(st: &State, rejected: &[crate::space::CItem]) -> Vec<Probe> {
+    let mut out = vec![];
+    fn rec(st: &State, items: &[crate::space::CItem], path: &[String], out: &mut Vec<Probe>) {
+        for it in items {
+            let (scope, expr) = match it.k {
+                K::Mod => {
+                    let mut p = path.to_vec();
+                    p.push(it.name.clone());
+                    rec(st, &it.ch, &p, out);
+                    continue;
+                }
+                K::Fn(_) | K::Const(_) | K::Ty(_) => (ScopeKey::Mod(path.to_vec()), join(path, &it.name)),
+                K::Meth(r) | K::Stat(r) => {
+                    let Some(tp) = st.type_path(r) else { continue };
+                    (ScopeKey::Ty(r), format!("{tp}.{}", it.name))
+                }
+                K::Use | K::ImplUse(_) => continue,
+            };
+            let bound = st.scopes.get(&scope).is_some_and(|sc| {
+                sc.decls.contains_key(&it.name)
+                    || sc.imports.contains_key(&it.name)
+                    || st.dangling.iter().any(|(_, n, _)| *n == it.name)
+            });
+            if bound {
+                continue;
+            }
+            let v = match it.k {
+                // by path only: `x.name()` needs a value
+                K::Meth(_) => {
+                    let mut v = probe_for(st, it.k, it.tag(), &expr, false, 0);
+                    v.truncate(2);
+                    v.into_iter().skip(1).collect()
+                }
+                _ => probe_for(st, it.k, it.tag(), &expr, false, 0),
+            };
+            for (src, sig, expect, _) in v {
+                out.push(Probe {
+                    src,
+                    sig,
+                    expect,
+                    negative: true,
+                    no_panic_only: false,
+                    path: expr.clone(),
+                    item: Some(it.id),
+                    via_use: None,
+                    at_root: path.is_empty(),
+                    what: "item of a rejected add",
+                });
+            }
+        }
+    }
+    rec(st, rejected, &[], &mut out);
+    for (i, p) in out.iter_mut().enumerate() {
+        let rest = p.src.strip_prefix("fn ").unwrap();
+        let end = rest.find('(').unwrap();
+        p.src = format!("fn q{i}{}", &rest[end..]);
     }
     out
 }
